@@ -75,14 +75,28 @@ type C19Extra struct {
 	O       int64   `json:"o"`
 	UnCase  int     `json:"uncase"`
 	UnVal   int64   `json:"unval"`
+	// t: int32[y, x] (TShape, elements 0..n-1): same element type as g, dimension names in the
+	// other order; ax / ax2: string fields holding a dimension name of g and t / of d
+	TShape [2]int `json:"tshape,omitempty"`
+	Ax     string `json:"ax,omitempty"`
+	Ax2    string `json:"ax2,omitempty"`
+}
+
+func (x *C19Extra) norm() *C19Extra {
+	if x.Ax == "" {
+		y := *x
+		y.TShape, y.Ax, y.Ax2 = [2]int{1, 1}, "x", "p"
+		return &y
+	}
+	return x
 }
 
 func (c C19Case) extra() *C19Extra {
 	if c.X != nil {
-		return c.X
+		return c.X.norm()
 	}
 	// replay files written before the structured fields existed
-	return &C19Extra{G: []int64{1, 2, 3, 4, 5, 6}, DShape: [2]int{1, 1}, D: []int64{1}, DDShape: []int{1}, MLen: 1, SubA: 1, SubC: 1, SubW: []int64{1}}
+	return (&C19Extra{G: []int64{1, 2, 3, 4, 5, 6}, DShape: [2]int{1, 1}, D: []int64{1}, DDShape: []int{1}, MLen: 1, SubA: 1, SubC: 1, SubW: []int64{1}}).norm()
 }
 
 type c19Atom struct {
@@ -138,6 +152,21 @@ func (x *C19Extra) atoms() []c19Atom {
 	add("size", int64(len(x.DDShape)), "dimensionCount(dd)")
 	add("size", int64(x.DDShape[0]), "size(dd, 0)")
 	add("size", int64(x.DDShape[len(x.DDShape)-1]), "size(dd, %d)", len(x.DDShape)-1)
+	// dimension names given by a string field (resolved when the field is evaluated, not by yardl)
+	idx := map[string]int64{"x": 0, "y": 1, "p": 0, "q": 1}
+	add("size", []int64{2, 3}[idx[x.Ax]], "size(g, ax)")
+	add("size", idx[x.Ax], "dimensionIndex(g, ax)")
+	add("size", int64(x.TShape[1-idx[x.Ax]]), "size(t, ax)")
+	add("size", 1-idx[x.Ax], "dimensionIndex(t, ax)")
+	add("size", int64(x.TShape[0]), "size(t, 'y')")
+	add("size", int64(x.TShape[1]), "size(t, 1)")
+	add("size", int64(x.DShape[idx[x.Ax2]]), "size(d, ax2)")
+	add("size", idx[x.Ax2], "dimensionIndex(d, ax2)")
+	for i := 0; i < x.TShape[0]; i++ {
+		for j := 0; j < x.TShape[1]; j++ {
+			add("int32", int64(i*x.TShape[1]+j), "t[x:%d, y:%d]", j, i)
+		}
+	}
 	add("size", int64(x.MLen), "size(m)")
 	add("int32", x.SubA, "sub.a")
 	add("int16", x.SubC, "sub.b.c")
@@ -215,7 +244,7 @@ func (c C19Case) vecMap(vec []*big.Rat) map[string][]*big.Rat {
 	return m
 }
 
-const c19Rule = "static part (exhaustive, shard 0): every ordered pair of the 11 numeric primitives x {+,-,*,/,**} as a computed field `a op b`: yardl gives a verdict for each; verdict and declared result type are the same for (A op B) and (B op A); the declared C++ return type and the Python annotation agree; ** yields float64. dynamic part: 6-10 generated well-typed expressions per case plus two association probes `A op1 (B op2 C)` / `(A op1 B) op2 C` at equal precedence one probe `a[i] op a[j]` on elements of an int16 or uint8 array, and one `!switch` over a union of two integer types of different signedness/width whose cases return their variable (cases in either order) (depth <= 3; field access, integer and real literals, + - * / **, unary minus, casts, vector indexing, size(); explicit parentheses in every association pattern), and structured operands - subscripts of a fixed int32[x:2, y:3] and a dynamic-size int16[p, q] array given positionally, by dimension name and by name in reverse order, size(array), size(array, index), size(array, 'name'), dimensionIndex, dimensionCount (also on an array with a dynamic number of dimensions), size(map), member access through two nested records, elements and size of a vector inside a nested record - used on their own, in `A op B` probes and inside the generated expressions, plus one `!switch` over an optional or a [null, int32, record] union (cases in either order, null written as `null` or as the `_` default) - over a record with one field per numeric primitive and those structured fields, evaluated on generated in-range operand values by the generated C++ and Python code; oracle: both equal the exact (rational) value of the expression whenever that value is defined by the documents and fits the declared type (integers exactly; reals within 1e-6 relative for float32 results, 1e-12 for float64; ** within 1e-9); an integer division with a non-integral quotient is judged too: against the common result when flooring and truncating agree, else C++ against Python. non-trivial = an expression with a right-nested group at equal precedence, mixed signedness/width, or a division; distinct = expression text + values"
+const c19Rule = "static part (exhaustive, shard 0): every ordered pair of the 11 numeric primitives x {+,-,*,/,**} as a computed field `a op b`: yardl gives a verdict for each; verdict and declared result type are the same for (A op B) and (B op A); the declared C++ return type and the Python annotation agree; ** yields float64. dynamic part: 6-10 generated well-typed expressions per case plus two association probes `A op1 (B op2 C)` / `(A op1 B) op2 C` at equal precedence one probe `a[i] op a[j]` on elements of an int16 or uint8 array, and one `!switch` over a union of two integer types of different signedness/width whose cases return their variable (cases in either order) (depth <= 3; field access, integer and real literals, + - * / **, unary minus, casts, vector indexing, size(); explicit parentheses in every association pattern), and structured operands - subscripts of a fixed int32[x:2, y:3] and a dynamic-size int16[p, q] array given positionally, by dimension name and by name in reverse order, size(array), size(array, index), size(array, 'name'), dimensionIndex, dimensionCount (also on an array with a dynamic number of dimensions), size / dimensionIndex with the dimension name taken from a string field (on three arrays of which two share the element type and have their named dimensions in opposite order), size(map), member access through two nested records, elements and size of a vector inside a nested record - used on their own, in `A op B` probes and inside the generated expressions, plus one `!switch` over an optional or a [null, int32, record] union (cases in either order, null written as `null` or as the `_` default) - over a record with one field per numeric primitive and those structured fields, evaluated on generated in-range operand values by the generated C++ and Python code; oracle: both equal the exact (rational) value of the expression whenever that value is defined by the documents and fits the declared type (integers exactly; reals within 1e-6 relative for float32 results, 1e-12 for float64; ** within 1e-9); an integer division with a non-integral quotient is judged too: against the common result when flooring and truncating agree, else C++ against Python. non-trivial = an expression with a right-nested group at equal precedence, mixed signedness/width, or a division; distinct = expression text + values"
 
 func c19Model(exprs []string) *model.Package {
 	rec := &model.Def{Kind: model.DRecord, Name: "Rec"}
@@ -240,6 +269,9 @@ func c19Model(exprs []string) *model.Package {
 		model.Field{Name: "sub", Type: model.Ref("Mdl", "Sub")},
 		model.Field{Name: "o", Type: model.Optional(model.Prim("int32"))},
 		model.Field{Name: "un", Type: &model.Type{Kind: model.KUnion, Cases: []*model.Type{nil, model.Prim("int32"), model.Ref("Mdl", "Sub")}, Tags: []string{"null", "int32", "Sub"}}},
+		model.Field{Name: "t", Type: &model.Type{Kind: model.KArray, Elem: model.Prim("int32"), HasDims: true, Dims: []model.Dim{{Name: "y"}, {Name: "x"}}}},
+		model.Field{Name: "ax", Type: model.Prim("string")},
+		model.Field{Name: "ax2", Type: model.Prim("string")},
 	)
 	for i, e := range exprs {
 		if strings.HasPrefix(e, "!switch2 ") {
@@ -484,6 +516,9 @@ func genC19(t *rapid.T) C19Case {
 	if x.OSet {
 		x.O = int64(rapid.SampledFrom([]int{-5, 0, 4, 1000000}).Draw(t, "o"))
 	}
+	x.TShape = [2]int{rapid.IntRange(1, 3).Draw(t, "tY"), rapid.IntRange(1, 3).Draw(t, "tX")}
+	x.Ax = rapid.SampledFrom([]string{"x", "y"}).Draw(t, "ax")
+	x.Ax2 = rapid.SampledFrom([]string{"p", "q"}).Draw(t, "ax2")
 	x.UnCase = rapid.IntRange(0, 2).Draw(t, "unCase")
 	if x.UnCase == 1 {
 		x.UnVal = int64(rapid.SampledFrom([]int{-2147483648, 2147483647, -4, 0, 9}).Draw(t, "unVal"))
@@ -504,6 +539,17 @@ func genC19(t *rapid.T) C19Case {
 		a, b := atoms[rapid.IntRange(0, len(atoms)-1).Draw(t, "probeAtomL")], atoms[rapid.IntRange(0, len(atoms)-1).Draw(t, "probeAtomR")]
 		op := rapid.SampledFrom([]string{"+", "-", "*"}).Draw(t, "probeAtomOp")
 		c.Exprs = append(c.Exprs, &ref.Expr2{Kind: "bin", Op: op, L: &ref.Expr2{Kind: "atom", Lit: a.text, Prim: a.prim}, R: &ref.Expr2{Kind: "atom", Lit: b.text, Prim: b.prim}})
+	}
+	{
+		// two operands that take a dimension name from a string field, on arrays of any layout
+		var byName []c19Atom
+		for _, a := range atoms {
+			if strings.HasSuffix(a.text, ", ax)") || strings.HasSuffix(a.text, ", ax2)") {
+				byName = append(byName, a)
+			}
+		}
+		a, b := byName[rapid.IntRange(0, len(byName)-1).Draw(t, "probeNameL")], byName[rapid.IntRange(0, len(byName)-1).Draw(t, "probeNameR")]
+		c.Exprs = append(c.Exprs, &ref.Expr2{Kind: "bin", Op: "+", L: &ref.Expr2{Kind: "bin", Op: "*", L: &ref.Expr2{Kind: "atom", Lit: a.text, Prim: a.prim}, R: &ref.Expr2{Kind: "int", Lit: "10"}}, R: &ref.Expr2{Kind: "atom", Lit: b.text, Prim: b.prim}})
 	}
 	c.Exprs = append(c.Exprs, &ref.Expr2{Kind: "switch2", Name: rapid.SampledFrom([]string{"o", "un"}).Draw(t, "sw2Field"), Lit: rapid.SampledFrom([]string{"A", "B"}).Draw(t, "sw2Variant")})
 	// two association probes per case: A op1 (B op2 C) and (A op1 B) op2 C with op1, op2 of equal
@@ -739,6 +785,13 @@ func checkC19(c C19Case) *Fail {
 			&value.Value{K: value.Array, Shape: []uint64{uint64(x.DShape[0]), uint64(x.DShape[1])}, Items: ints(x.D)},
 			&value.Value{K: value.Array, Shape: ddShape, Items: ints(ddVals)},
 			mV, subV(), oV, unV)
+		var tVals []int64
+		for i := 0; i < x.TShape[0]*x.TShape[1]; i++ {
+			tVals = append(tVals, int64(i))
+		}
+		recV.Items = append(recV.Items,
+			&value.Value{K: value.Array, Shape: []uint64{uint64(x.TShape[0]), uint64(x.TShape[1])}, Items: ints(tVals)},
+			&value.Value{K: value.String, S: x.Ax}, &value.Value{K: value.String, S: x.Ax2})
 	}
 	proto := p.Find("Proto0")
 	in := filepath.Join(b.Root, "rec.bin")
@@ -844,7 +897,7 @@ func checkC19(c C19Case) *Fail {
 		if strings.Contains(e.Text(), "/") || strings.Contains(e.Text(), "(") {
 			rec.Nontrivial(core.Hash(e.Text(), c.Values, c.Vec, c.X))
 		}
-		for _, w := range []string{"size(", "dimensionIndex(", "dimensionCount(", "sub.", "g[", "d[", "!switch2"} {
+		for _, w := range []string{"size(", "dimensionIndex(", "dimensionCount(", "sub.", "g[", "d[", "t[", ", ax", "!switch2"} {
 			if strings.Contains(e.Text(), w) {
 				rec.Class("judged-with:" + w)
 			}
